@@ -79,6 +79,38 @@ DESC = {
     "C19-1": ("enabled items zipped with the weights of the full list",
               "dict form with non-uniform weights and an ineligible item listed before an eligible one"),
     "C19-2": ("weighted DiscreteRange returns the index instead of low + index", "user-written DiscreteRange(low, high, weights=...) with low != 0"),
+    "C01-3": ("one shared random draw decides which soft requirements are enforced in a sample",
+              "two or more soft requirements with probabilities strictly between 0 and 1 (marginals stay right, the joint does not)"),
+    "C01-4": ("lazy values without required properties memoised across contexts: every instance shares one default Distribution",
+              "class property with a random default not mentioning self, two instances using the default, joint distribution"),
+    "C03-3": ("footprint slab cache reused when the new slab is merely centred inside the old one and shorter",
+              "the same footprint intersected twice: a low slab first, then a shorter one sticking out of it"),
+    "C03-4": ("containment pruning erodes the container by the *upper* bound of the object's inradius",
+              "object with random dimensions placed in a region that is also (close to) its container"),
+    "C05-3": ("TupleDistribution.evaluateInner drops the builder (list/tuple identity) when evaluated in a context",
+              "list literal with a random element inside a class default depending on self"),
+    "C05-4": ("distributionFunction wrapper tests keyword *names* instead of keyword values for randomness / laziness",
+              "a distribution function called with a random or lazy keyword argument"),
+    "C08-3": ("mesh-volume erosion pads the voxel grid by minBuffer in total instead of per side",
+              "containment pruning of a mesh container by an object whose inradius is a sizeable fraction of the container"),
+    "C08-4": ("heading interval with bounded disturbance: branch-cut endpoints added only when crossing +pi",
+              "field-aligned object with a disturbance in a cell whose heading is next to -pi, requirement band beyond the cut"),
+    "C12-3": ("a monitor's `terminate` inside a sub-scenario ends the whole simulation",
+              "sub-scenario requiring a terminating monitor while its invoker still has work left"),
+    "C12-4": ("schedule returned by scheduleForAgents consumed by validation when it is a one-shot iterable",
+              "simulator whose schedule is a generator / iterator"),
+    "C15-3": ("VoxelRegion sampler draws from a private numpy Generator seeded from OS entropy",
+              "a point sampled uniformly from a VoxelRegion"),
+    "C15-4": ("behaviour-namespace dependencies collected through `keys() - set` (a set of strings)",
+              "two or more module-level random values referenced only from behaviour / monitor bodies, different hash seeds"),
+    "C16-3": ("MeshRegion.projectVector picks the hit with the smallest *signed* offset",
+              "both rays hit (gap of a non-convex volume, inside of a closed surface) and the nearer hit is on the + side"),
+    "C16-4": ("shared helper reducing mixed shapely collections keeps the lowest-dimensional part present",
+              "planar operands overlapping in area and also sharing a boundary stretch outside the overlap"),
+    "C19-3": ("only the first precondition / invariant of a behaviour is compiled",
+              "item of do choose / do shuffle whose first precondition holds and a later one does not"),
+    "C19-4": ("eligibility of an invocable cached per (time step, agent)",
+              "state read by a precondition changing between two polls within one step (instant item, shared object)"),
     "C20-1": ("map digest hashes the file in 64 KiB blocks and skips the final short block",
               "load, edit the tail of the map, load again with the cache on"),
     "C20-2": ("adjacent-lane de-duplication set created once per road instead of once per lane", "roads with three or more lanes"),
